@@ -28,19 +28,15 @@ Definition agrees (bad : list N) (b : list line) (o : obs) : bool :=
   Bool.eqb (r_allfailed r) (o_allfailed o) &&
   same_multiset (r_stored r) (o_found o).
 
-(* model self-check on the case: the conclusions of the guarded theorems, evaluated
+(* model self-check on the case: the conclusions of the theorems, evaluated
    (redundant with the proofs; catches a stale .vo) *)
 Definition self_check (bad : list N) (b : list line) : bool :=
   let r := handle (store_of bad) b in
   let A := actions (body_lines b) in
-  (if ends_with_doc A then Nat.eqb (length (r_items r)) (length A)
-   else Nat.eqb (S (length (r_items r))) (length A)) &&
+  list_eqb N.eqb (r_items r) (map expected_status A) &&
+  Bool.eqb (r_errors r) (existsb (fun st => negb (created st)) (r_items r)) &&
   (if stores_ok (store_of bad) A
-   then same_multiset (r_stored r) (flat_map act_doc (filter act_ok A)) else true) &&
-  (if no_oversize A
-   then Bool.eqb (r_errors r) (existsb (fun st => negb (created st)) (r_items r)) &&
-        list_eqb N.eqb (r_items r) (firstn (length (r_items r)) (map expected_status A))
-   else true).
+   then same_multiset (r_stored r) (flat_map act_doc (filter act_ok A)) else true).
 
 Fixpoint check (cases : list (list N * list line * obs)) (i : nat) : list nat :=
   match cases with
